@@ -1323,6 +1323,11 @@ class Connection(object):
     def new_continuous_paging_session(self, stream_id, decoder, row_factory, state):
         session = ContinuousPagingSession(stream_id, decoder, row_factory, self, state)
         self._continuous_paging_sessions[stream_id] = session
+        if self.is_defunct or self.is_closed:
+            # the connection failed while the first response was being handled: nobody is
+            # left to fail this session later, so fail it now (at most once: whoever pops it)
+            self.error_all_cp_sessions(self.last_error or ConnectionShutdown(
+                "Connection to %s is %s" % (self.endpoint, "defunct" if self.is_defunct else "closed")))
         return session
 
     def remove_continuous_paging_session(self, stream_id):
